@@ -274,7 +274,28 @@ class Table(object):
         return out
 
     def list_remove(self, ex, st, c, args, kwargs, node):
-        raise Unsupported(".remove()")
+        """l.remove(x): drops one element equal to x (any matching index: over-approximates 'the first');
+        ValueError when no element equals x"""
+        from . import builtins_model as B
+        used("list.remove", self.list_remove.__doc__.strip())
+        x = ex.lift(args[0])
+        st = st.copy()
+        i = V.fresh("rm_idx", z3.IntSort())
+        n = Val.llen(c)
+        j = z3.Int("j!rm")
+        newl = V.VList(n - 1, z3.Lambda([j], z3.If(j < i, z3.Select(Val.lat(c), j), z3.Select(Val.lat(c), j + 1))))
+        found = z3.And(i >= 0, i < n, ops.py_eq(z3.Select(Val.lat(c), i), x))
+        alts = [(z3.And(V.is_list(c), found), ("val", newl)),
+                (z3.And(V.is_list(c), z3.Not(ops.member_unfold(x, c))), ("raise", ValueError)),
+                (z3.Not(V.is_list(c)), ("unsupported", "remove on a non-list"))]
+        out = []
+        for s3, oc in ex.apply_op(st, alts, "list.remove"):
+            if oc[0] == "raise":
+                out.append((s3, oc))
+                continue
+            for s4, ctl in B.writeback(ex, s3, node, oc[1]):
+                out.append((s4, ("val", V.VNone) if ctl[0] != "raise" else ("raise", ctl[1])))
+        return out
 
     def opaque_str_method(self, ex, st, s_, name, args):
         raise Unsupported("str.%s" % name)
@@ -374,8 +395,26 @@ class Table(object):
         st.assume(n >= 0)
         body_st = st.copy()
         body_st.assume(dom)
+        # earlier elements may have allocated objects and changed reference-indexed ghost arrays: the body is run from
+        # an arbitrary such state; that every run keeps the entries of pre-existing references is an obligation
+        # (`map-frame`), which is what justifies keeping them across the whole map
+        grown = V.fresh("map_allocs", z3.IntSort())
+        body_st.assume(grown >= 0)
+        aptr_before = st.aptr
+        body_st.aptr = z3.simplify(st.aptr + grown)
+        mid_ghost = {}
+        for g, (sort, _) in GHOST_SORTS.items():
+            if isinstance(sort, z3.ArraySortRef) and sort.domain() == z3.IntSort():
+                cur = self.ghost(body_st, g)
+                mid = V.fresh("Gmid_" + g, sort)
+                r_ = z3.Int("r!mid")
+                body_st.assume(z3.ForAll([r_], z3.Implies(r_ < aptr_before, z3.Select(mid, r_) == z3.Select(cur, r_)),
+                                         patterns=[z3.Select(mid, r_)]))
+                body_st.ghost[g] = mid
+                mid_ghost[g] = (cur, mid)
         heap_before = dict(body_st.heap)
         ghost_before = dict(body_st.ghost)
+        base_len = len(body_st.pc)
         results = []
         for s1, ctl in ex.assign(body_st, gen.target, elem):
             if ctl[0] != "normal":
@@ -384,7 +423,13 @@ class Table(object):
                 results.extend(ex.eval_seq(s1, [e.key, e.value]))
             else:
                 results.extend(ex.eval(s1, e.elt))
-        base_len = len(st.pc) + 1
+        # reference-indexed ghosts no path of the body touched are put back as they were
+        for g, (cur, mid) in list(mid_ghost.items()):
+            if all(s2.ghost.get(g) is not None and s2.ghost[g].eq(mid) for s2, _ in results):
+                for s2, _ in results:
+                    s2.ghost[g] = cur
+                ghost_before[g] = cur
+                del mid_ghost[g]
         vals, raises = [], []
         changed_ghost = set()
         for s2, oc in results:
@@ -416,8 +461,24 @@ class Table(object):
 
         # ghost state the body may change (logs of calls made for each element) is havocked after the map: the
         # rule says nothing about it
+        from .symexec import Obligation
         for g in sorted(changed_ghost):
-            st.ghost[g] = V.fresh("G_after_map_" + g, self.ghost_sort(g))
+            hav = V.fresh("G_after_map_" + g, self.ghost_sort(g))
+            if g in mid_ghost:
+                cur, mid = mid_ghost[g]
+                for s2, oc in results:
+                    endv = s2.ghost.get(g, mid)
+                    fr = z3.Int("FREE!rmap")
+                    goal = z3.Implies(fr < body_st.aptr, z3.Select(endv, fr) == z3.Select(mid, fr))
+                    st.obligations.append(Obligation("%s/map-frame[%s]" % (ex.env.fn.key, g), s2.hyps(), goal, s2.sig,
+                                                     "map-frame", g, ex.env.contract.props if ex.env.contract else ()))
+                r_ = z3.Int("r!amap")
+                st.ghost[g] = z3.Lambda([r_], z3.If(r_ < aptr_before, z3.Select(cur, r_), z3.Select(hav, r_)))
+            else:
+                st.ghost[g] = hav
+        grown2 = V.fresh("map_allocs_total", z3.IntSort())
+        st.assume(grown2 >= 0)
+        st.aptr = z3.simplify(st.aptr + grown2)
         out = []
         if kind == "dict":
             newget = V.fresh("mapget", V.GetArr)
